@@ -107,6 +107,8 @@ type Interp struct {
 	unwindCut int
 	known map[*Term]bool
 	opaqueBuilders map[*Value]bool
+	race *raceState
+	curFn *ssa.Function
 	ivals map[*Term]ival
 	masks map[*Term]*big.Int
 	knownVal map[*Term]uint64
@@ -145,6 +147,7 @@ type Explorer struct {
 	assumes    map[string]bool
 	cuts       map[string]bool
 	symDecisions int
+	raceQueries int
 }
 
 func NewExplorer(prog *ssa.Program, pkg *ssa.Package, fn *ssa.Function, cfg *Config) *Explorer {
